@@ -43,6 +43,11 @@ def _frame(kind, hbh):
         # AVP header cut short by the frame end (7 trailing bytes)
         body = oh + b"\x00\x00\x01\x28\x40\x00\x00"
         return rc.enc_header(1, 20 + len(body), R, 280, 0, hbh, hbh + 7) + body
+    if kind in MAYBE:
+        # correct frame length; the second AVP's own length field is 0 / 3 / 7 (less than an AVP header).  Whether such a frame counts
+        # as decodable is the decoder's business (C04); the reader must neither spin on it nor lose the frames around it
+        body = oh + (296).to_bytes(4, "big") + bytes([0x40]) + int(kind[3:]).to_bytes(3, "big") + b"example.org\x00"
+        return rc.enc_header(1, 20 + len(body), R, 280, 0, hbh, hbh + 7) + body
     if kind.startswith("len"):
         good = bytearray(_frame("dwr", hbh))
         good[1:4] = int(kind[3:]).to_bytes(3, "big")
@@ -60,6 +65,7 @@ def _frame(kind, hbh):
 
 WELL = ("dwr", "hdr", "cer", "undec", "big", "resv", "resv2")
 UNDEC = ("undec", "undec2")
+MAYBE = ("avp0", "avp3", "avp7")
 MAL = tuple(f"len{i}" for i in range(20)) + ("short4", "long4")
 
 
@@ -123,7 +129,18 @@ def judge(kinds, expected, obs, cutdesc):
         vs.append(Violation(f"framing:reader-stopped-silently:{status}",
                             f"stream {kinds} cuts {cutdesc}: reader {status}, connection closed={closed}", case))
         return vs
-    if wellformed:
+    if wellformed and any(k in MAYBE for k in kinds):
+        # frames that may or may not be delivered: everything else exactly once and in order, nothing unknown, no duplicates
+        opt = {(rc.Hdr(f).code, rc.Hdr(f).hbh, rc.Hdr(f).e2e, len(f)) for k, f in zip(kinds, build_stream(kinds)[0]) if k in MAYBE}
+        must = [e for e in expected if e not in opt]
+        ok = [g for g in got if g not in opt] == must and len(set(got)) == len(got) and [e for e in expected if e in got] == list(got)
+        if not ok:
+            vs.append(Violation(f"framing:wellformed-stream:with-short-avp-length-frame:{'closed' if closed else 'wrong-delivery'}",
+                                f"stream {kinds} cuts {cutdesc}: delivered {got}, expected {must} (+ optionally {sorted(opt)}), closed={closed}", case))
+        elif closed or status != "waiting":
+            vs.append(Violation("framing:wellformed-stream:connection-not-kept-open",
+                                f"stream {kinds} cuts {cutdesc}: status={status} closed={closed}", case))
+    elif wellformed:
         if list(got) != expected:
             has_undec = any(k in UNDEC for k in kinds)
             sig = "with-undecodable-frame" if has_undec else "decodable-only"
@@ -222,6 +239,9 @@ def streams(tier):
             for pos in range(L + 1):
                 for m in MAL:
                     out.append(seq[:pos] + (m,) + seq[pos:])
+    # frames in which an AVP's own length field is below the AVP header size
+    for m in MAYBE:
+        out += [(m,), ("dwr", m), (m, "dwr"), (m, m), ("dwr", m, "dwr")]
     # well-formed streams of 6
     out.append(("dwr", "hdr", "cer", "dwr", "undec", "dwr"))
     out.append(("hdr",) * 6)
@@ -238,7 +258,10 @@ def race_execute(kinds_a, kinds_b, prefix):
     from .. import codecrace, scheddfs
     sk.install()
     import diameter.node.peer as P
-    sk.set_line_points({sk.code_of(P.PeerConnection, "work_read_queue"): None})
+    import diameter.message._base as MB
+    # line granularity also where a frame's header is parsed: a switch between two primitive reads of one header must be explorable
+    sk.set_line_points({sk.code_of(P.PeerConnection, "work_read_queue"): None, sk.code_of(MB.MessageHeader, "from_bytes"): None,
+                        sk.code_of(MB.Message, "from_bytes"): None})
     sk.set_call_points(codecrace.codec_codes())
     ch = scheddfs.Chooser(prefix)
     w = sk.World(chooser=ch)
@@ -283,7 +306,7 @@ def race_check(obs):
     return vs
 
 
-RACES = [(("dwr", "cer"), ("cer", "dwr")), (("dwr", "undec", "dwr"), ("cer",))]
+RACES = [(("dwr", "cer"), ("cer", "dwr")), (("dwr", "undec", "dwr"), ("cer",)), (("dwr", "dwr", "dwr", "dwr", "dwr"), ("cer",))]
 
 
 # ------------------------------------------------------------------ the node's own socket reads (segment sizes around its read size)
